@@ -18,7 +18,7 @@ private theorem fm_hit (c : Nat) (cs : PStr) (h : c = 60 ∨ c = 62 ∨ c = 38) 
   rcases h with h | h | h <;> subst h <;>
     cases cs <;> simp [BS.Entities.firstMatch, BS.Entities.xmlParticles, BS.Entities.Particle.matchesAt, List.find?, List.isPrefixOf]
 
-theorem substXml_eq_c09 (s : PStr) : substXml s = BS.Entities.substXml BS.Gen.xmlTable s := by
+theorem substXml_eq_c09 (s : PStr) : substXml s = BS.Entities.substXml BS.Gen.C09.xmlTable s := by
   induction s with
   | nil => simp [substXml, BS.Entities.substXml, BS.Entities.reSub]
   | cons c cs ih =>
